@@ -4483,7 +4483,14 @@ static inline bool ts_query_cursor__advance(
           // The reason for this is that typically, anchors will not consider anonymous nodes,
           // but we're special casing the wildcard symbol to allow for any immediate matches,
           // regardless of whether they are named or not.
-          if (step->symbol == WILDCARD_SYMBOL && !step->is_named && next_step->is_immediate) {
+          //
+          // A supertype step also carries the wildcard symbol (its own symbol is kept in
+          // `supertype_symbol`), but it is not the anonymous wildcard: an anchor after it skips
+          // anonymous nodes like an anchor after any other named pattern.
+          if (
+            step->symbol == WILDCARD_SYMBOL && !step->is_named && !step->supertype_symbol &&
+            next_step->is_immediate
+          ) {
               state->seeking_immediate_match = true;
           } else {
               state->seeking_immediate_match = false;
